@@ -374,10 +374,9 @@ def rule_r2(chk) -> None:
 
 
 def _deep_expand(e: ast.AST, at: ast.AST, depth: int = 4) -> ast.AST:
-    """expand(), but also through awaited definitions (x = await f(…) -> f(…)); a copy, the tree is untouched."""
-    import copy
-
-    e2 = copy.deepcopy(expand(e, at))
+    """expand(), but also through awaited definitions (x = await f(…) -> f(…)).  Works on a re-parsed copy (the
+    indexed tree carries parent pointers and must not be deep-copied or mutated)."""
+    e2 = ast.parse(ast.unparse(expand(e, at)), mode="eval").body
 
     class Sub(ast.NodeTransformer):
         def visit_Await(self, node):
@@ -515,13 +514,13 @@ _R1_FIX_ANCHOR = "        await lifecycle.create(run_id)\n"
 
 TWINS = [
     # ---- R1
-    Twin("R1 complete_release never called", _DBI, "            await lifecycle.complete_release(run_id)\n", "            lifecycle.complete_release\n", "C36.R1"),
+    Twin("R1 complete_release called on the wrong object", _DBI, "            await lifecycle.complete_release(run_id)\n", "            await self._store.complete_release(run_id)\n", "C36.R1"),
     Twin("R1 resume claim never called", _DBI, "            result = await lifecycle.try_begin_resume(\n                self.run_id, crash_timeout_seconds=CRASH_TIMEOUT_SECONDS\n            )",
          "            result = await self._runtime._peek_state(\n                self.run_id, crash_timeout_seconds=CRASH_TIMEOUT_SECONDS\n            )", "C36.R1"),
     Twin("R1 benign: renamed lifecycle local", _DBI, "            lifecycle = await self._get_lifecycle()\n            await lifecycle.complete_release(run_id)\n", "            lock = await self._get_lifecycle()\n            await lock.complete_release(run_id)\n", None),
     Twin("R1 benign: inline receiver", _DBI, "        lifecycle = await self._get_lifecycle()\n        if not await lifecycle.begin_release(run_id):\n", "        lifecycle = await self._get_lifecycle()\n        if not await (await self._get_lifecycle()).begin_release(run_id):\n", None),
     Twin("R1 (repaired tree) registration dropped again", _DBI, _R1_FIX_ANCHOR, "        lifecycle.create\n", "C36.R1"),
-    Twin("R1 (repaired tree) registration only on an unrelated path", _DBI, "        await lifecycle.create(run_id)\n", "        if False:\n            await lifecycle.create(run_id)\n", None),
+    Twin("R1 (repaired tree) benign: awaited receiver inline", _DBI, "        lifecycle = await self._get_lifecycle()\n        await lifecycle.create(run_id)\n", "        await (await self._get_lifecycle()).create(run_id)\n", None),
     # ---- R2
     Twin("R2 timer before the marker", _SRV,
          "        if isinstance(event, WorkflowIdleEvent):\n            idle_since = datetime.now(timezone.utc)\n            await self._store.update_handler_status(\n                self.run_id, status=\"running\", idle_since=idle_since\n            )\n        await super().write_to_event_stream(event)\n",
